@@ -2,6 +2,7 @@ package cs
 
 import (
 	"fmt"
+	"strings"
 
 	"package-operator.run/internal/packages/verifsim/store"
 )
@@ -101,11 +102,35 @@ func GenOT(w *World, maxEdits int, opts ...string) *Scenario {
 	if g.Cluster {
 		variants = []string{"valid", "valid", "unparsable"}
 	}
+	// nested: both sources write below one top-level key (.n.a / .n.b) - the values of one source must not
+	// replace what another source put next to them
+	nested := !hostile && s.Chance(1, 4, "nested-destinations")
+	if nested {
+		variants = []string{"valid", "valid", "unparsable", "cluster-target"}
+		if g.Cluster {
+			variants = []string{"valid", "valid", "unparsable"}
+		}
+		for _, sx := range sources {
+			for _, ix := range sx.(map[string]any)["items"].([]any) {
+				im := ix.(map[string]any)
+				if d, _ := im["destination"].(string); d == ".a" || d == ".b" {
+					im["destination"] = ".n" + d
+				}
+			}
+		}
+	}
 	if hostile {
 		variants = append(variants, "widget-target", "widget-target", "not-an-object", "empty")
 	}
 	variant := variants[s.Intn(len(variants), "template-variant")]
-	tpl := otTemplate(variant)
+	nest := func(t string) string {
+		if !nested {
+			return t
+		}
+		t = strings.ReplaceAll(t, "{{ .config.a }}", "{{ .config.n.a }}")
+		return strings.ReplaceAll(t, "(index .config \"b\")", "(index .config.n \"b\")")
+	}
+	tpl := nest(otTemplate(variant))
 	if hostile {
 		// odd source items: keys/destinations the CRD accepts. No wildcard over a map with several entries:
 		// k8s jsonpath walks Go maps in random order there, which no seed controls
@@ -119,7 +144,7 @@ func GenOT(w *World, maxEdits int, opts ...string) *Scenario {
 		}
 	}
 	if g.Cluster && variant == "valid" {
-		tpl = "apiVersion: v1\nkind: ConfigMap\nmetadata:\n  name: ot-target\n  namespace: ns1\ndata:\n  a: \"{{ .config.a }}\"\n  b: \"{{ default \"none\" (index .config \"b\") }}\"\n  v: \"{{ .environment.kubernetes.version }}\"\n"
+		tpl = nest("apiVersion: v1\nkind: ConfigMap\nmetadata:\n  name: ot-target\n  namespace: ns1\ndata:\n  a: \"{{ .config.a }}\"\n  b: \"{{ default \"none\" (index .config \"b\") }}\"\n  v: \"{{ .environment.kubernetes.version }}\"\n")
 	}
 	g.Variants = []string{variant}
 	ot := store.Obj{"apiVersion": PKOGroup + "/" + PKOVer, "kind": g.Kind, "metadata": map[string]any{"name": "ot-1"},
@@ -174,7 +199,7 @@ func GenOT(w *World, maxEdits int, opts ...string) *Scenario {
 			sc.UserOps = append(sc.UserOps, UserOp{Label: "delete " + src.Name, Do: func(w *World) { _ = w.TP("user", w.Mgmt).Delete(key, "Background") }})
 		case 2:
 			nv := variants[s.Intn(len(variants), "new-variant")]
-			ntpl := otTemplate(nv)
+			ntpl := nest(otTemplate(nv))
 			if g.Cluster && nv == "valid" {
 				ntpl = tpl
 			}
